@@ -95,11 +95,17 @@ S(id="A.fail.native", props=["C17"], spec="native/alloc_fail_enum.c", mode="N", 
   bound="every k up to the last memory request of: yaep_create_grammar, yaep_parse_grammar, yaep_read_grammar, yaep_parse on three inputs/settings of one expression grammar",
   functions=["yaep_create_grammar", "yaep_parse_grammar", "yaep_read_grammar", "yaep_parse", "yaep_free_grammar"],
   what="the k-th memory request of the call fails (libc allocator interposed), for every k: NULL / YAEP_NO_MEMORY, no crash, the object is still usable and can be freed, another object is unaffected")
-S(id="D.diff.native", props=["C11"], spec="native/desc_diff_enum.c", mode="N", link=["allocate.c", "hashtab.c", "objstack.c", "vlobject.c", "yaep.c"], harness="main", timeout=3600,
+S(id="D.diff.native", props=["C11"], spec="native/desc_diff_enum.c", mode="N", sanitize="undefined", link=["allocate.c", "hashtab.c", "objstack.c", "vlobject.c", "yaep.c"], harness="main", timeout=3600,
   params={"quick": {"NSYM": 3, "INLEN": 2}, "thorough": {"NSYM": 4, "INLEN": 3}},
   bound="descriptions with one rule of 1..2 alternatives of <= 2 symbols over {'a', B, N} (thorough + C=7) and 7 translation forms; right-hand sides of 1..130 symbols; inputs of length <= 2 (thorough 3); with/without cost flag",
   functions=["yaep_parse_grammar", "yyparse (bison actions)", "set_sgrammar", "sread_terminal", "sread_rule"],
   what="yaep_parse_grammar on a description and yaep_read_grammar on the grammar the text denotes give the same definition result and the same parse results and trees (names, costs, codes)")
+S(id="T.pair.native", props=["C13"], spec="native/pair_enum.c", mode="N", link=["allocate.c", "hashtab.c", "objstack.c", "vlobject.c", "yaep.c"], harness="main", timeout=3600,
+  params={"quick": {"NSYM": 3, "INLEN": 2, "PAIR_ALTS": 1}, "thorough": {"NSYM": 3, "INLEN": 2, "PAIR_ALTS": 2}},
+  bound="descriptions with one rule of 1 (thorough 2) alternatives of <= 2 symbols over {'a', B, N} and 7 translation forms; inputs of length <= 2; one/all parses; with/without cost flag",
+  functions=["yaep_parse", "make_parse", "find_minimal_translation", "yaep_free_tree", "yaep_free_grammar"],
+  what="whole-parse ownership: parse_free only gets blocks parse_alloc returned during this parse, at most once, never NULL; everything reachable from the root is live after the parse and after "
+       "yaep_free_grammar; yaep_free_tree releases every block exactly once, termcb once per TERM node; no block of the parse stays unreleased")
 S(id="HT.hpn.native", props=["C19"], spec="native/ht_prime.c", mode="N", link=["hashtab.c", "allocate.c"], harness="main",
   params={"quick": {"K": 20000}, "thorough": {"K": 2000000}}, bound="all requested sizes 0..K",
   functions=["higher_prime_number"], what="assumed clause of hpn_assumed_c: result is a prime in (n, 2n+3]")
